@@ -128,6 +128,7 @@ def main(argv=None):
             "engine": part.engine,
             "bound": part.bound.get(args.tier),
             "executions": st.executions,
+            "evaluations": st.evaluations,
             "states": st.states,
             "transitions": st.transitions,
             "outcomes": dict(st.buckets.most_common(24)),
@@ -195,7 +196,8 @@ def main(argv=None):
     if not args.no_evidence:
         level = getattr(mod, "LEVEL", "exploration")
         cov = {
-            "evaluations": total.executions,
+            "evaluations": total.evaluations,
+            "executions": total.executions,
             "distinct_nontrivial": len(total.nontrivial),
             "rule": getattr(mod, "RULE", ""),
             "samples": total.samples[:8] or [{"note": "no samples"}],
